@@ -19,7 +19,8 @@ import time
 
 from lib.vcommon import REPO, coq_list, coq_opt, coq_str, coq_z
 
-GROUP_NAMES = ["g1", "g2", "g3", "g10", "g11", "g20", "dend_1", "dend_2", "dend_12", "axon_3", "axon_21",
+# g1/g01, dend_1/dend_01, x9y1/x09y1 are different ids with the SAME natural-sort key
+GROUP_NAMES = ["g01", "dend_01", "x09y1", "g1", "g2", "g3", "g10", "g11", "g20", "dend_1", "dend_2", "dend_12", "axon_3", "axon_21",
                "soma_group", "axon_group", "dendrite_group", "a", "b", "ab", "B2", "b2x7", "sec-1", "sec_1",
                "x9y1", "x9y10", "x10y2", "7up", "12k", "k", "z"]
 
@@ -41,6 +42,10 @@ CORPUS = [
      "kind": "corpus:natsort"},
     {"segs": [0], "groups": [{"id": "g", "members": [0], "includes": ["nope"], "nlex": None}],
      "kind": "corpus:missing-group"},
+    {"segs": [0, 1, 2], "groups": [{"id": "d1", "members": [1], "includes": [], "nlex": None},
+                                   {"id": "d01", "members": [2], "includes": [], "nlex": None},
+                                   {"id": "top", "members": [0, 1], "includes": ["d1", "d01", "d1"], "nlex": None}],
+     "kind": "corpus:ids-equal-under-natural-sort"},
     {"segs": [0], "groups": [{"id": "p", "members": [0], "includes": ["q"], "nlex": None},
                              {"id": "q", "members": [], "includes": ["p"], "nlex": None}],
      "kind": "corpus:cycle"},
@@ -200,7 +205,8 @@ def predicate(case, res):
             bad.append(("C14:covered-member-kept" + suffix,
                         "group %r keeps member(s) %s that an included group supplies" % (g["id"], sorted(set(cov))),
                         "no member supplied by an include", g["members"]))
-    if res["opt2"] != opt:
+    # (lists compared as multisets: ids with equal natural-sort keys are ordered by set iteration)
+    if not isinstance(res["opt2"], list) or canon_groups(res["opt2"]) != canon_groups(opt):
         bad.append(("C14:optimise-not-idempotent", "optimising twice differs from once", opt, res["opt2"]))
     return bad
 
@@ -592,8 +598,8 @@ def run(ck):
                   "Member/Include equality is by value (GeneratedsSuper.__eq__), modelled as Z / string equality"]
     ck.assumptions = ["include graph acyclic, every include names a defined group (or the undefined 'all'), group ids "
                       "unique and non-empty: hypotheses of the theorems; cells outside are only compared, not judged",
-                      "two include ids with equal natsort keys (a01 / a1) are not generated: their order comes from set "
-                      "iteration over object addresses"]
+                      "ids with equal natural-sort keys (g1 / g01) ARE generated; the order natsort gives them comes from set "
+                      "iteration over object addresses, which is why member/include lists are compared as multisets"]
     ck.gate_static()
     source_check(ck)
 
